@@ -770,6 +770,22 @@ Lemma or_triples : forall a b,
 Proof. reflexivity. Qed.
 Lemma ior_triples : forall a b, triples (g_ior a b) = triples (g_or a b).
 Proof. reflexivity. Qed.
+Lemma Sublist_refl : forall {A} (l : list A), Sublist l l.
+Proof. intros A l. induction l as [|x l IH]; [constructor|apply SL_keep; exact IH]. Qed.
+Lemma Sublist_app_l : forall {A} (l1 l2 : list A), Sublist l1 (l1 ++ l2).
+Proof.
+  intros A l1 l2. induction l1 as [|x l1 IH]; simpl.
+  - induction l2 as [|y l2 IH2]; constructor. exact IH2.
+  - apply SL_keep. exact IH.
+Qed.
+Lemma or_spec : forall a b,
+  triples (g_or a b) = triples a ++ filter (fun t => negb (tmem t (triples a))) (triples b) /\
+  Sublist (triples a) (triples (g_or a b)) /\
+  gmeta (g_or a b) = [] /\ gtop (g_or a b) = gtop a.
+Proof.
+  intros a b. split; [reflexivity|]. split; [rewrite or_triples; apply Sublist_app_l|].
+  split; reflexivity.
+Qed.
 
 Lemma ior_loop1 : forall a b ts ed,
   fold_left
